@@ -124,6 +124,43 @@ def collectors(chk, rng, n):
                     chk.count("prepared_datasets_checked")
                     if len(ds.episodes) > 1:
                         chk.count("prepared_datasets_with_several_episodes")
+        # --- sample_trajectories with a Gaussian policy on a bounded action space (narrow box: most samples fall outside it):
+        #     the action kept for learning is the action the environment was given, bit for bit
+        from rl_blox.blox.function_approximator.gaussian_mlp import GaussianMLP
+        from rl_blox.blox.function_approximator.policy_head import GaussianPolicy
+        low, high = ([-0.25, 0.5], [0.125, 1.0]) if i % 2 else ([-0.5], [0.25])
+        gpol = GaussianPolicy(GaussianMLP(bool(i % 2), 3, len(low), [4], "tanh", nnx.Rngs(100 + i)))
+        envc = ScriptEnv(script, low=low, high=high, reward_scale=0.25)
+        casec = {"collector": "sample_trajectories", "policy": "GaussianPolicy", "action_box": [low, high], "script": script, "total_steps": total}
+        okc, dsc = chk.impl_call("C01:sample_trajectories:raised", casec, sample_trajectories, envc, gpol, jax.random.key(50 + i), None, False, total)
+        chk.case(("sample_trajectories_box", str(script), total, str(low)))
+        chk.count("collector_sample_trajectories_box")
+        if okc:
+            stepsc = envc.step_events()
+            flatc = [t for ep in dsc.episodes for t in ep]
+            bad = None
+            if len(flatc) != len(stepsc) or [len(ep) for ep in dsc.episodes] != _episode_lengths(stepsc):
+                bad = ("the episode dataset differs from the environment's transitions (or its episode split)", {})
+            else:
+                for k, ((o, a, no, rw), e) in enumerate(zip(flatc, stepsc)):
+                    a_kept, a_env = np.asarray(a, dtype=np.float32).reshape(-1), np.asarray(e[2], dtype=np.float32).reshape(-1)
+                    if a_kept.tobytes() != a_env.tobytes():
+                        bad = ("the action kept for learning is not the action that was passed to the environment", {"step": k, "kept_action": a_kept.tolist(), "environment_action": a_env.tolist()})
+                    elif not (np.array_equal(np.asarray(o, dtype=np.float32), e[1]) and np.array_equal(np.asarray(no, dtype=np.float32), e[4]) and float(rw) == e[3]):
+                        bad = ("a kept transition differs from the environment's step", {"step": k})
+                    if bad:
+                        break
+                if not bad:
+                    okp, prep = chk.impl_call("C01:prepare_policy_gradient_dataset:raised", casec, dsc.prepare_policy_gradient_dataset, envc.action_space, 0.5)
+                    if okp:
+                        A = np.asarray(prep[1], dtype=np.float32).reshape(len(stepsc), -1)
+                        exp_a = np.stack([np.asarray(e[2], dtype=np.float32).reshape(-1) for e in stepsc])
+                        if A.tobytes() != exp_a.tobytes():
+                            bad = ("the action array prepared for learning differs from the actions passed to the environment", {"prepared": A.tolist(), "environment": exp_a.tolist()})
+                    outside = sum(1 for e in stepsc if np.any(np.asarray(e[2]).reshape(-1) < np.asarray(low)) or np.any(np.asarray(e[2]).reshape(-1) > np.asarray(high)))
+                    chk.count("box_actions_outside_the_bounds", outside)
+            if bad:
+                chk.fail("C01:sample_trajectories:kept-action", bad[0], {"case": casec, **bad[1]})
         # --- A2C collect_trajectories (vector env, NEXT_STEP autoreset)
         N, T = int(rng.integers(1, 4)), int(rng.integers(1, 6))
         scripts = [[(int(rng.choice([1, 2, 3, 5])), str(rng.choice(["term", "trunc"]))) for _ in range(3)] for _ in range(N)]
@@ -253,6 +290,11 @@ def main(chk):
         bad = None if r["res"]["raised"] else tabruns.check_kept(r["res"])
         if bad:
             chk.fail(f"C01:train_{r['name']}:kept-transition", "tabular routine: " + bad[0], {"case": r["case"], **bad[1]})
+        bad = None if r["res"]["raised"] else tabruns.check_conditioned(r["res"])
+        if bad:
+            chk.fail(f"C01:train_{r['name']}:policy-observation", "tabular routine: " + bad[0], {"case": r["case"], **bad[1]})
+        elif not r["res"]["raised"]:
+            chk.count("tabular_policy_queries_checked", len([e for e in r["res"]["log"] if e[0] == "step"]))
     r0 = recs[0]
     chk.sample({"case": lc.case_of(r0), "kept_head": [[lc.obs_tag(a["observation"]), lc.obs_tag(a["next_observation"])] for a in r0["adds"][:4]],
                 "model_stored_head": r0["model"]["stored"][:4]})
